@@ -133,13 +133,23 @@ Definition schema_of (cls typ : Z) : option (list fld * bool) :=
   else if typ =? 107 then Some ([FS (FU 2 u16max); nm], false)                       (* LP *)
   else if typ =? 16 then Some ([FRepeat true false [FCounted 1 0 255]], false)       (* TXT *)
   else if typ =? 65280 then Some ([FRemaining 0], false)                             (* GenericRdata *)
+  else if (typ =? 23) && (cls =? 1) then Some ([nm], false)                          (* IN NSAP-PTR (UncompressedNS) *)
+  else if (typ =? 28) && (cls =? 1) then Some ([FS (FFixed 16)], false)              (* IN AAAA *)
+  else if typ =? 13 then Some ([FS (FCounted 1 0 255); FS (FCounted 1 0 255)], false) (* HINFO *)
+  else if typ =? 44 then Some ([FS (FU 1 255); FS (FU 1 255); FRemaining 0], false)  (* SSHFP *)
+  else if (typ =? 52) || (typ =? 53)
+       then Some ([FS (FU 1 255); FS (FU 1 255); FS (FU 1 255); FRemaining 0], false) (* TLSA SMIMEA *)
+  else if (typ =? 48) || (typ =? 60)
+       then Some ([FS (FU 2 u16max); FS (FU 1 255); FS (FU 1 255); FRemaining 0], false) (* DNSKEY CDNSKEY *)
+  else if typ =? 256 then Some ([FS (FU 2 u16max); FS (FU 2 u16max); FRemaining 1], false) (* URI *)
+  else if typ =? 257 then Some ([FS (FU 1 255); FS (FCounted 1 1 255); FRemaining 0], false) (* CAA *)
   else None.
 
 (* the types of schema_of *)
 Definition table_types : list (Z * Z) :=
   [(1, 1); (1, 2); (1, 5); (1, 12); (1, 39); (1, 15); (1, 18); (1, 21); (1, 36); (1, 6); (1, 33);
    (1, 17); (1, 26); (1, 35); (1, 46); (1, 24); (1, 47); (1, 66); (1, 107); (1, 16); (1, 65280);
-   (3, 2); (3, 15)].
+   (3, 2); (3, 15); (1, 23); (1, 28); (1, 13); (1, 44); (1, 52); (1, 53); (1, 48); (1, 60); (1, 256); (1, 257)].
 
 (* ---------- harness interface ---------- *)
 Definition srec_of_obs (o : obs) : option srec :=
